@@ -207,7 +207,7 @@ fn random_state(rng: &mut StdRng) -> Value {
     json!({"x": x, "y": y, "pos": pos, "ifs": ifs, "nounset": rng.gen_range(0..7) == 0, "st": pick(rng, &["0", "0", "1", "3"])})
 }
 
-const CTXS: &[&str] = &["arg", "arg", "arg", "for", "assign", "assign", "asgseq", "export", "noname", "redir", "here", "here"];
+const CTXS: &[&str] = &["arg", "arg", "arg", "for", "assign", "assign", "asgseq", "asgcs", "export", "noname", "redir", "here", "here", "hereq"];
 
 pub fn random(args: &[String]) -> i32 {
     let n = util::opt_usize(args, "--n", 1000);
@@ -218,8 +218,9 @@ pub fn random(args: &[String]) -> i32 {
         let ctx = pick(&mut rng, CTXS);
         let top = matches!(ctx, "arg" | "for" | "noname");
         let depth = rng.gen_range(1..=3);
-        let mut w = word(&mut rng, depth, ctx == "here", top);
-        if ctx == "here" {
+        let here = ctx == "here" || ctx == "hereq";
+        let mut w = word(&mut rng, depth, here, top);
+        if here {
             // inside a here-document single and double quotes are literal text: keep the units simple
             w.retain(|u| u["t"] != "sq");
         }
